@@ -129,6 +129,7 @@ def register_assemble(reg):
       props=["C01", "C15"],
       params={"self": {"cls": "torrentfile.torrent.TorrentFile",
                        "fields": {"meta": "dict", "path": "str", "progress": "int", "align": "bool", "piece_length": "int"}}},
+      ghost={"j": "int"},
       requires=["('info' in self.meta) and is_dict(self.meta['info'])", "self.piece_length > 0",
                 "not ('files' in self.meta['info']) and not ('length' in self.meta['info'])",
                 "('piece length' in self.meta['info']) and is_int(self.meta['info']['piece length']) and "
@@ -137,6 +138,10 @@ def register_assemble(reg):
           ("C01", "pieces_are_the_bep3_hashing_of_the_listed_files_cut_with_the_recorded_piece_length",
            "implies(not self.align or fs_isfile(self.path), self.meta['info']['pieces'] == "
            "v1_pieces(rest(listed_files(), 0), as_int(self.meta['info']['piece length'])))"),
+          ("C01", "every_listed_file_appears_once_in_order_with_its_exact_length",
+           "implies(not fs_isfile(self.path) and not self.align, len(self.meta['info']['files']) == len(listed_files()) and "
+           "implies(0 <= j < len(listed_files()), self.meta['info']['files'][j]['length'] == len(fs_data(listed_files()[j])) and "
+           "self.meta['info']['files'][j]['path'] == relpath_components(listed_files()[j], self.path)))"),
           ("C01", "recorded_piece_length_untouched", "self.meta['info']['piece length'] == old(self.meta['info']['piece length'])"),
           ("C01", "single_file_records_its_exact_length",
            "implies(fs_isfile(self.path), self.meta['info']['length'] == listed_total() and not ('files' in self.meta['info']))"),
